@@ -538,11 +538,11 @@ class FileBasedPacketSerializer(BufferedIncrementalPacketSerializer[_T_SentDTOPa
                 if not initial:
                     buffer.write((yield))
                     buffer.seek(0)
-                self.__check_file_buffer_limit(buffer)
                 try:
                     packet: _T_ReceivedDTOPacket = self.load_from_file(buffer)
                 except EOFError:
-                    pass
+                    # The limit applies to an incomplete packet only: complete packets received in the same chunk must not be dropped.
+                    self.__check_file_buffer_limit(buffer)
                 except self.__expected_errors as exc:
                     msg = f"Deserialize error: {exc}"
                     if self.debug:
